@@ -128,13 +128,19 @@ fn run_ops<T: Tx>(lines: &[String], buf: &Arc<Mutex<String>>) {
                 } else {
                     let _ = writeln!(b, "O {} {}", k, toks.join(" "));
                 }
-                let _ = writeln!(b, "R panic {}", panic_msg(e));
-                // state after a panic (the documented ones must leave a usable structure)
-                let mut st = String::new();
-                if catch_unwind(AssertUnwindSafe(|| dump_state(&t, &mut st))).is_ok() {
-                    b.push_str(&st);
+                let msg = panic_msg(e);
+                let _ = writeln!(b, "R panic {}", msg);
+                // The documented panic of the add_constraint family must leave a usable structure: dump it and go on.
+                // After any other panic the operation was abandoned half way: the case ends here and no state is judged.
+                if msg.contains("intersect") {
+                    let mut st = String::new();
+                    if catch_unwind(AssertUnwindSafe(|| dump_state(&t, &mut st))).is_ok() {
+                        b.push_str(&st);
+                    } else {
+                        b.push_str("S broken\n");
+                    }
                 } else {
-                    b.push_str("S broken\n");
+                    return;
                 }
             }
         }
